@@ -238,11 +238,15 @@ pub fn run(ctx: &Ctx) -> i32 {
     let n_pure = 4usize;
     let n_direct = ctx.tier.pick(8, 64);
     let pure_n = ctx.tier.pick(20_000, 500_000);
+    let race_rounds = ctx.tier.pick(60_000, 400_000);
     let mut summary = runner::run_scenarios(&cfg, move |i, s| {
         if i < n_pure {
             super::direct::c05_pure(i, s, pure_n)
         } else if i < n_pure + n_direct {
             super::direct::c05_direct(i, s)
+        } else if i < n_pure + n_direct + 8 {
+            // close notifications racing registrations on two threads (shared with C04)
+            super::direct::c04_race(i, s, race_rounds)
         } else {
             scenario(i, s)
         }
@@ -272,6 +276,6 @@ pub fn run(ctx: &Ctx) -> i32 {
         extra: Default::default(),
         exhaustive: None,
         min_signatures: 4,
-        required_counters: vec!["mutual_dials_completed", "pure_decisions_checked", "direct_registration_orders"],
+        required_counters: vec!["mutual_dials_completed", "pure_decisions_checked", "direct_registration_orders", "race_rounds"],
     })
 }
